@@ -24,7 +24,16 @@ import (
 	"github.com/dadrus/heimdall/internal/x/errorchain"
 )
 
-func DecodeConfig(input any, output any) error {
+func DecodeConfig(input any, output any) (err error) {
+	// the decoder panics for some malformed inputs (e.g. for mappings with keys, which
+	// are not strings). A rule set is loaded on goroutines, which do not recover
+	defer func() {
+		if rec := recover(); rec != nil {
+			err = errorchain.NewWithMessagef(heimdall.ErrConfiguration,
+				"failed decoding ruleset config: %v", rec)
+		}
+	}()
+
 	dec, err := mapstructure.NewDecoder(
 		&mapstructure.DecoderConfig{
 			DecodeHook: mapstructure.ComposeDecodeHookFunc(
